@@ -103,6 +103,12 @@ def goalF : Nat → Bool → P G
       match goalF n false ts with
       | some (g, ts) => some (.anyo (Goal.conjOfList [Goal.conjOfList [g]]), ts)
       | none => none
+    else if t == "loop" && !dfs then
+      match nat ts with
+      | some (k, ts) => match clausesF n false k ts with
+        | some (cs, ts) => some (.anyo (Goal.conjOfList (cs.map Goal.conjOfList)), ts)
+        | none => none
+      | none => none
     else if t == "always" && !dfs then some (.anyo (.succeed : G), ts)
     else if t == "never" && !dfs then some (.anyo (.fail : G), ts)
     else if t == "call" then
